@@ -40,7 +40,7 @@ def DsCall.isWrite : DsCall → Bool
 
 /-- writes that touch the study record or its trials (as opposed to operation bookkeeping) -/
 def DsCall.writesStudyData : DsCall → Bool
-  | .updateStudy | .createTrial | .updateTrial | .deleteTrial | .updateMetadata => true
+  | .updateStudy | .deleteStudy | .createTrial | .updateTrial | .deleteTrial | .updateMetadata => true
   | _ => false
 
 /-- the lock discipline this model assumes of `vizier_service.py` (locks sorted by name) -/
@@ -48,7 +48,7 @@ def assumedShape : List (Rpc × List (DsCall × List LockTable)) := [
   (.createStudy, [(.listStudies, [.owner]), (.createStudy, [.owner])]),
   (.getStudy, [(.loadStudy, [])]),
   (.listStudies, [(.listStudies, [])]),
-  (.deleteStudy, [(.deleteStudy, [])]),
+  (.deleteStudy, [(.deleteStudy, [.operation, .study])]),
   (.setStudyState, [(.loadStudy, [.study]), (.updateStudy, [.study])]),
   (.suggestTrials, [(.loadStudy, []), (.loadStudy, [.operation]), (.listSuggestionOperations, [.operation]),
     (.maxSuggestionOperationNumber, [.operation]), (.createSuggestionOperation, [.operation]),
@@ -62,9 +62,9 @@ def assumedShape : List (Rpc × List (DsCall × List LockTable)) := [
   (.addTrialMeasurement, [(.loadStudy, []), (.getTrial, [.study]), (.updateTrial, [.study])]),
   (.completeTrial, [(.loadStudy, []), (.getTrial, [.study]), (.updateTrial, [.study])]),
   (.deleteTrial, [(.loadStudy, []), (.deleteTrial, [.study])]),
-  (.checkTrialEarlyStoppingState, [(.loadStudy, []), (.getTrial, [.study]), (.getEarlyStoppingOperation, [.operation]),
-    (.createEarlyStoppingOperation, [.operation]), (.updateEarlyStoppingOperation, [.operation]),
-    (.loadStudy, [.operation]), (.maxTrialId, [.operation]), (.updateMetadata, [.operation, .study])]),
+  (.checkTrialEarlyStoppingState, [(.loadStudy, []), (.getTrial, [.study]), (.loadStudy, [.operation]),
+    (.getEarlyStoppingOperation, [.operation]), (.createEarlyStoppingOperation, [.operation]),
+    (.updateEarlyStoppingOperation, [.operation]), (.maxTrialId, [.operation]), (.updateMetadata, [.operation, .study])]),
   (.stopTrial, [(.loadStudy, []), (.getTrial, [.study]), (.updateTrial, [.study])]),
   (.listOptimalTrials, [(.listTrials, []), (.loadStudy, [])]),
   (.updateMetadata, [(.loadStudy, []), (.updateMetadata, [.study])])]
